@@ -185,6 +185,16 @@ def proc_project(calls, with_prog, with_generic, nograph=None, entmeta=None):
         rel["calls"].add(("program~prog", "proc~p1"))
         if with_generic:
             rel["calls"].add(("program~prog", "interface~gen"))
+    if with_prog == "intfn":
+        # besides: a module procedure whose CONTAINS part holds internal functions only (proc_internals on, see run_case)
+        files["src/pm2.f90"] = ("module pm2\nimplicit none\ncontains\nsubroutine hostf()\n!! hostf\ninteger :: r\nr = inf1(1)\ncontains\n"
+                                "integer function inf1(a)\n!! inf1\ninteger :: a\ninf1 = inf2(a)\nend function inf1\n"
+                                "integer function inf2(a)\n!! inf2\ninteger :: a\ninf2 = a\nend function inf2\n"
+                                "integer function spare(a)\n!! spare, called by nobody\ninteger :: a\nspare = inf2(a)\nend function spare\n"
+                                "end subroutine hostf\nend module pm2\n")
+        # (internal procedures of a procedure have no page of their own: FORD's node id for them is none~<name>, and they get no graphs of their own)
+        rel["calls"] |= {("proc~hostf", "none~inf1"), ("none~inf1", "none~inf2"), ("none~spare", "none~inf2")}
+        rel["nodes"] |= {"proc~hostf", "none~inf1", "none~inf2", "none~spare"}
     if with_prog == "f77":
         # besides: an old-style driver without any USE that works with its own internal procedures only
         files["src/drv.f90"] = ("program drv\n!! drv\nimplicit none\ncall inner()\ncontains\nsubroutine inner()\n!! inner\ncall inner2(2)\nend subroutine inner\n"
@@ -206,6 +216,7 @@ def gen_proc_cases(tier):
     for mask in range(0, 512, 31 if tier == "quick" else 3):
         calls = tuple(c for k, c in enumerate(allc) if mask >> k & 1)
         yield ("procs", calls, "f77", False)
+        yield ("procs", calls, "intfn", False)
 
 
 def tbp_project(tname, decl, chain, caller):
@@ -356,6 +367,8 @@ def expected_graphs(family, rel, maxdepth, maxnodes):
         inv = lambda n: [] if n.startswith("program~") else ([(a, (a, b, "solid")) for (a, b) in sorted(K) if b == n] + [(a, (a, b, "dashed")) for (a, b) in sorted(I) if b == n])  # noqa
         allnodes = set(rel["nodes"]) | {x for e in K for x in e}
         for n in sorted(allnodes):
+            if n.startswith("none~"):
+                continue
             exp[(n, "callsgraph")] = bfs(n, fwd, maxdepth, maxnodes)
             EXPREND[(n, "callsgraph")] = expected_rendering(n, fwd, maxdepth, maxnodes)
             if not n.startswith("program~"):
@@ -378,6 +391,8 @@ def run_case(st: Stats, case, limits, nograph=None, ppar=False, entmeta=None):
     for (maxdepth, maxnodes) in limits:
         opts = dict(graph=True, graph_maxdepth=maxdepth, graph_maxnodes=maxnodes, show_proc_parent=ppar,
                     display=["public", "private", "protected"], incl_src=True)
+        if family == "procs" and case[2] == "intfn":
+            opts["proc_internals"] = True
         r = fordrun.build(files, opts, stage="docs")
         st.evaluations += 1
         stratum = f"{family}/d{maxdepth if maxdepth < 100 else 'inf'}/n{maxnodes if maxnodes < 100 else 'inf'}" + ("/nograph" if nograph else "") + ("/entity-limits" if entmeta else "")
